@@ -18,13 +18,13 @@ import (
 
 // Call is one recorded file-system call.
 type Call struct {
-	Nr   int    `json:"nr"`
-	Name string `json:"name"`
-	Path string `json:"path,omitempty"`  // resolved path relative to the scenario directory ("" for fd calls: see FdPath)
+	Nr    int    `json:"nr"`
+	Name  string `json:"name"`
+	Path  string `json:"path,omitempty"`  // resolved path relative to the scenario directory ("" for fd calls: see FdPath)
 	Path2 string `json:"path2,omitempty"` // second path (rename)
-	Fd   int    `json:"fd,omitempty"`
-	Len  int    `json:"len,omitempty"` // byte count for read/write
-	Ret  int64  `json:"ret"`
+	Fd    int    `json:"fd,omitempty"`
+	Len   int    `json:"len,omitempty"` // byte count for read/write
+	Ret   int64  `json:"ret"`
 }
 
 func (c Call) String() string {
@@ -76,7 +76,7 @@ type Job struct {
 	K2     int `json:"k2"`
 	Errno2 int `json:"errno2,omitempty"`
 	// TrackStdout: treat writes to fd 1 as file-system calls of the scenario.
-	TrackStdout bool `json:"track_stdout,omitempty"`
+	TrackStdout bool   `json:"track_stdout,omitempty"`
 	StdoutFile  string `json:"stdout_file,omitempty"`
 	TimeoutMs   int    `json:"timeout_ms,omitempty"`
 }
@@ -110,12 +110,12 @@ type tstate struct {
 }
 
 type pending struct {
-	call    Call
-	track   bool
-	inject  bool
-	errno   int
-	newFd   bool
-	half    bool
+	call      Call
+	track     bool
+	inject    bool
+	errno     int
+	newFd     bool
+	half      bool
 	killAfter bool
 }
 
